@@ -54,16 +54,17 @@ fn addr(ip3: u8, port: u16) -> SocketAddrV4 {
 fn kbucket_add_case(n: usize) -> (bool, bool, bool, bool) {
     let head_age: u64 = kani::any();
     kani::assume(head_age <= 2_000_000);
-    slab!(sl, 21);
+    // (a real heap-backed bucket here, NOT the stack-backed buffers used by the table harnesses:
+    // KBucket::add moves entries inside the buffer, and after a memmove inside a local array of
+    // MaybeUninit<Node> CBMC no longer recognises the moved Arc pointers as equal to themselves — a
+    // spurious failure that native playback does not reproduce. Measured, and reverted.)
+    let mut b = KBucket::new();
     let mut i = 0usize;
     while i < n {
         // ids: byte 1 = i; insecure (parity of id[19]=0 xor ip3 = 2*i is even)
-        sl[i].write(node_aged(idb(0x80, i as u8, 0), addr((2 * i) as u8, 1000 + i as u16), if i == 0 { head_age } else { 1_000 }));
+        b.nodes.push(node_aged(idb(0x80, i as u8, 0), addr((2 * i) as u8, 1000 + i as u16), if i == 0 { head_age } else { 1_000 }));
         i += 1;
     }
-    // (stack-backed buffer of capacity 21: KBucket::add never looks at the capacity, and at most
-    // one push follows a removal or a length below 20)
-    let mut b = KBucket { nodes: unsafe { Vec::from_raw_parts(sl.as_mut_ptr() as *mut Node, n, 21) } };
     let inc_b1: u8 = kani::any();
     if n > 2 {
         // at 19/20 entries the incoming id is the head's, a middle entry's, the tail's, or unknown
@@ -353,12 +354,8 @@ fn stub_table_add(t: &mut RoutingTable, node: Node) -> bool {
 #[kani::stub(RoutingTable::add, stub_table_add)]
 fn c12_reset_id_rebuilds_the_table_through_add() {
     let mut t = RoutingTable::new(idb(0, 0, 0));
-    slab!(sa, 2);
-    slab!(sb, 2);
-    let na = stack_nodes!(sa, 2, [node_aged(idb(0x80, 1, 0), addr(2, 7000), 1_000)]);
-    let nb = stack_nodes!(sb, 2, [node_aged(idb(0x40, 1, 0), addr(5, 7000), 1_000)]);
-    t.buckets.insert(160, KBucket { nodes: na });
-    t.buckets.insert(159, KBucket { nodes: nb });
+    // (heap-backed: reset_id drops the old buckets, and a stack-backed buffer cannot be freed)
+    fill_ab(&mut t);
     let nb: u8 = kani::any();
     let new_id = idb(nb, 3, 0);
     t.reset_id(new_id);
